@@ -1,32 +1,43 @@
 #!/bin/bash
-# Must-fail / must-stay-green self-test of the verifier.
+# Must-fail / must-stay-green self-test of the verifier (parallel).
 # usage: tools/selftest.sh [property ...]     (default: all mutants)
 # Each mutants/<prop>/<name>.patch has a header line "# expect: <obligation substring>|GREEN" and
 # optionally "# props: C04 C05" (properties whose check is run; default: the directory name).
 export GOFLAGS=-mod=mod GOPROXY=off GOSUMDB=off GOTOOLCHAIN=local
 HERE=$(cd "$(dirname "$0")/.." && pwd)
-SCR=${VERIF_SCRATCH:-/var/tmp/ruxvc.selftest.$$}
-fail=0; n=0
-for p in "$HERE"/mutants/*/*.patch; do
-  prop=$(basename "$(dirname "$p")")
-  if [ $# -gt 0 ]; then case " $* " in *" $prop "*) ;; *) continue;; esac; fi
+BASE=${VERIF_SCRATCH:-/var/tmp/ruxvc.selftest.$$}
+JOBS=${SELFTEST_JOBS:-4}
+mkdir -p "$BASE"
+one() {
+  p=$1; prop=$(basename "$(dirname "$p")"); name=$(basename "$p" .patch)
+  SCR="$BASE/$prop.$name"
   exp=$(sed -n 's/^# expect: //p' "$p" | head -1)
   props=$(sed -n 's/^# props: //p' "$p" | head -1); props=${props:-$prop}
   rm -rf "$SCR"; mkdir -p "$SCR/v"
   rsync -a --exclude .git /repo/ "$SCR/repo/"
   cp "$HERE/known_findings.json" "$SCR/v/"
-  if ! (cd "$SCR/repo" && patch -p1 --quiet < "$p"); then echo "SELFTEST-ERROR cannot apply $p"; fail=1; continue; fi
-  if ! (cd "$SCR/repo" && go build ./... ) >/dev/null 2>&1; then echo "SELFTEST-ERROR mutant does not compile: $p"; fail=1; continue; fi
+  if ! (cd "$SCR/repo" && patch -p1 --quiet < "$p"); then echo "SELFTEST-ERROR cannot apply $p"; rm -rf "$SCR"; return; fi
+  if ! (cd "$SCR/repo" && go build ./... ) >/dev/null 2>&1; then echo "SELFTEST-ERROR mutant does not compile: $p"; rm -rf "$SCR"; return; fi
   for q in $props; do
-    n=$((n+1))
-    out=$("$HERE/bin/ruxvc" -repo "$SCR/repo" -verif "$SCR/v" -prop "$q" -noreplay 2>&1)
+    out=$("$HERE/bin/ruxvc" -repo "$SCR/repo" -verif "$SCR/v" -prop "$q" -noreplay -j 6 2>&1)
     if [ "$exp" = GREEN ]; then
-      if echo "$out" | grep -q '^VIOLATION'; then echo "SELFTEST-FAIL (false alarm) $q $(basename $p): $(echo "$out" | grep '^VIOLATION' | head -2)"; fail=1; else echo "ok   green     $q $(basename $p)"; fi
+      if echo "$out" | grep -q '^VIOLATION'; then echo "SELFTEST-FAIL (false alarm) $q $name: $(echo "$out" | grep '^VIOLATION' | head -2)"; else echo "ok   green     $q $name"; fi
     else
-      if echo "$out" | grep '^VIOLATION' | grep -q -- "$exp"; then echo "ok   caught    $q $(basename $p) -> $exp"; else echo "SELFTEST-FAIL (missed) $q $(basename $p) expected $exp; got: $(echo "$out" | grep -E '^(VIOLATION|TOOL)' | head -3)"; fail=1; fi
+      if echo "$out" | grep '^VIOLATION' | grep -q -- "$exp"; then echo "ok   caught    $q $name -> $exp"; else echo "SELFTEST-FAIL (missed) $q $name expected $exp; got: $(echo "$out" | grep -E '^(VIOLATION|TOOL)' | head -3)"; fi
     fi
   done
+  rm -rf "$SCR"
+}
+export -f one; export HERE BASE
+list=()
+for p in "$HERE"/mutants/*/*.patch; do
+  prop=$(basename "$(dirname "$p")")
+  if [ $# -gt 0 ]; then case " $* " in *" $prop "*) ;; *) continue;; esac; fi
+  list+=("$p")
 done
-rm -rf "$SCR"
-echo "selftest: $n runs, fail=$fail"
-exit $fail
+printf '%s\n' "${list[@]}" | xargs -P "$JOBS" -I{} bash -c 'one {}' > "$BASE/out.txt" 2>&1
+sort "$BASE/out.txt"
+n=$(grep -c . "$BASE/out.txt"); f=$(grep -c 'SELFTEST-' "$BASE/out.txt")
+rm -rf "$BASE"
+echo "selftest: $n results, failures=$f"
+[ "$f" = 0 ]
